@@ -328,6 +328,7 @@ import stages
 
 def check_C02(tier):
     k = T(tier, 1, 12)
+    stages.EFFECTS_LIMIT = 0     # effects in unsequenced argument positions are outside C02's fragment by its own statement
     plan = [dict(n=180 * k, mode="seq", pressure=True, twins=True, budget=(8, 26), tag="press"),
             dict(n=80 * k, mode="seq", pressure=False, budget=(8, 30), wide=True, tag="plain")]
     return stages.stage_check(
@@ -381,6 +382,9 @@ def check_C05(tier):
 
 # ---------------------------------------------------------------------------------------------- C01 (native)
 def check_C01(tier):
+    # the effect-order corpus has effects in unsequenced argument positions; the source semantics of C01 (eager integers and
+    # data, by-name codata) does not fix their order (C02 excludes them explicitly), so C01 does not judge them
+    stages.EFFECTS_LIMIT = 0
     import native, equiv, collections, time
     t0 = time.time()
     build_harness()
@@ -704,6 +708,7 @@ def capacity_boundary_programs():
 
 
 def check_C12(tier):
+    stages.EFFECTS_LIMIT = T(tier, 6, None)
     import time, collections
     t0 = time.time()
     build_harness()
@@ -813,6 +818,7 @@ def adversarial_renames(src, text_by_backend, limit=3):
 
 
 def check_C14(tier):
+    stages.EFFECTS_LIMIT = T(tier, 6, None)
     import native, refine, time, collections
     t0 = time.time()
     build_harness()
@@ -861,9 +867,7 @@ def check_C14(tier):
                 texts["%s:%s" % (n, be)] = c["text"]
     wd = os.path.join(work, "tlc")
     os.makedirs(wd, exist_ok=True)
-    fp = os.path.join(wd, "files.json")
-    json.dump(files, open(fp, "w"))
-    rr = tlc_batch("AsmWF", "AsmWF.cfg", wd, {"SCCV_PROGS": fp}, len(files), timeout=T(tier, 900, 7000), xmx="12g")
+    rr = tlc_batch_chunked("AsmWF", "AsmWF.cfg", wd, files, envkey="SCCV_PROGS", timeout=T(tier, 900, 7000), xmx="12g")
     verdict = {x["case"]: x for x in rr["results"]}
     viols = []
     for x in rr["results"]:
